@@ -191,7 +191,7 @@ def run_case(spec, scratch):
         finding = None
         if isinstance(e, OverflowError) and tb[-1].name == '_retInterpolateWrapPoints' and spec.get('overflow_class') \
                 and 'too large to convert to float' in str(e):
-            finding = 'F-C19-OVERFLOW'
+            finding = 'C19-wrap-interpolation-overflow'
         fails.append((f'{type(e).__name__}: {str(e)[:200]} at {where}', finding))
         return {'fails': fails, 'stats': stats, 'nontriv': None}
 
